@@ -24,6 +24,7 @@ mod qref;
 mod quantile;
 mod record;
 mod report;
+mod serdelong;
 mod types;
 
 use rayon::prelude::*;
@@ -258,6 +259,13 @@ fn main() {
             let seed: u64 = m.get("seed").and_then(|s| s.parse().ok()).unwrap_or(1);
             let reps: usize = m.get("reps").and_then(|s| s.parse().ok()).unwrap_or(200);
             hist_types::direct_histbig(&m["prop"], seed, reps, &mut r);
+            r
+        }
+        ("direct", Some("serdelong")) => {
+            let mut r = Report::default();
+            let seed: u64 = m.get("seed").and_then(|s| s.parse().ok()).unwrap_or(1);
+            let n: usize = m.get("n").and_then(|s| s.parse().ok()).unwrap_or(300);
+            serdelong::direct_serdelong(seed, n, &mut r);
             r
         }
         ("direct", Some("histserde")) => {
